@@ -34,11 +34,18 @@ def twin_net(seed, variant):
     x = g.input([1, h, w, c], 0.05, 3, name="in_1")
     k = 3 if variant == 0 else 1
     acts = ["logistic", "tanh"] if variant == 0 else ["tanh", "logistic"]  # same two tables, created in opposite order
+    extra = []
+    if seed % 3 == 0:
+        # a PAD over height, width and channels: the optimiser splits it and edits the paddings constant
+        x = g.pad(x, [[0, 0], [1, 1], [1, 0], [0, int(r.choice([1, 3, 8]))]])
+    elif seed % 3 == 1:
+        # a side branch padding the batch and the channel dimension together (split into two PADs by the optimiser)
+        extra.append(g.pad(x, [[int(r.choice([0, 1])), 1], [0, int(r.choice([0, 1]))], [0, 0], [int(r.choice([0, 2])), int(r.choice([1, 3]))]]))
     y = g.conv(x, c, k, 1, netgen.PAD_SAME, 0, oscale=0.02, ozp=-7, wdist=variant)
     z = g.unary(acts[0], y)
     y2 = g.conv(z, c, 1, 1, netgen.PAD_SAME, 0, oscale=0.02, ozp=-7)
     z2 = g.unary(acts[1], y2)
-    return g.finish([z2], "twin%d" % variant, "approx", None)
+    return g.finish([z2] + extra, "twin%d" % variant, "approx", None)
 
 
 def gen_cases(tier, seed):
@@ -48,7 +55,7 @@ def gen_cases(tier, seed):
     fams = ["exact-chain", "lut-stress", "cpu-mix", "approx-tail", "buffer-stress", "alias-stress", "stripe-stress", "exact-dag"]
     n_hist = 64 if q else 800
     for i in range(n_hist):
-        kind = ["AA", "AB", "twins", "entry-mix", "acc-mix", "long"][i % 6]
+        kind = ["AA", "AB", "twins", "entry-mix", "acc-mix", "long", "twins-entry-mix", "entry-mix"][i % 8]
         cases.append({"part": "history", "kind": kind, "seed": int(seed * 7919 + i), "fam": fams[i % len(fams)], "fam2": fams[(i * 3 + 1) % len(fams)]})
     n_hs = 16 if q else 64
     for i in range(n_hs):
@@ -134,7 +141,7 @@ def run_case(case):
     else:
         kind = case["kind"]
         sets["history_kinds"].add(kind)
-        if kind == "twins":
+        if kind in ("twins", "twins-entry-mix"):
             A, B = twin_net(case["seed"], 0), twin_net(case["seed"], 1)
             counters["twins"] += 1
         else:
@@ -148,10 +155,11 @@ def run_case(case):
             seq = [("main", ma, cfgA), ("main", mb, cfgB)]
             if kind == "twins" and rng.integers(0, 2):
                 seq.append(("main", ma, cfgA))
-        elif kind == "entry-mix":
+        elif kind in ("entry-mix", "twins-entry-mix"):
             counters["entry_point_mixes"] += 1
-            order = [("convert", ma, CONVERT_CFG), ("main", mb, CONVERT_CFG), ("convert_bytes", ma, CONVERT_CFG), ("main", ma, CONVERT_CFG), ("convert_bytes", mb, CONVERT_CFG)]
-            seq = [order[int(i)] for i in rng.permutation(len(order))[: int(rng.integers(3, 6))]]
+            order = [("convert", ma, CONVERT_CFG), ("main", mb, CONVERT_CFG), ("convert_bytes", ma, CONVERT_CFG), ("main", ma, CONVERT_CFG), ("convert_bytes", mb, CONVERT_CFG),
+                     ("convert_bytes_same_buffer", ma, CONVERT_CFG), ("convert_bytes_same_buffer", ma, CONVERT_CFG), ("convert_bytes_memoryview", mb, CONVERT_CFG), ("convert", mb, CONVERT_CFG)]
+            seq = [order[int(i)] for i in rng.permutation(len(order))[: int(rng.integers(3, 7))]]
         else:
             ms = [ma, mb]
             seq = [("main", ms[int(rng.integers(0, 2))], cfgA if rng.integers(0, 2) else cfgB) for _ in range(int(rng.integers(4, 7)))]
@@ -176,10 +184,14 @@ def run_case(case):
                     mech = "step-fails-only-after-history:%s:%s" % (e, r.get("mech") or (r.get("error") or "?").split(":")[0])
                     v(mech, "step %d (%s %s) fails after %s but compiles in a fresh process: %s" % (i, e, os.path.basename(m), [(x[0], os.path.basename(x[1])) for x in seq[:i]], r.get("error")), wit)
                     continue
+                if r.get("input_modified"):
+                    v("entry-point-modifies-the-callers-model-buffer:" + e, "step %d (%s %s) changed the bytes of the model buffer it was given" % (i, e, os.path.basename(m)), wit)
+                if "input_modified" in r:
+                    counters["caller_buffers_compared"] = counters.get("caller_buffers_compared", 0) + 1
                 counters["byte_comparisons"] += 1
                 if digest(r["out_path"]) != digest(b["out_path"]):
                     first = "first-in-process" if i == 0 else "after-history"
-                    mech = "output-differs-from-fresh-cli:%s:%s" % (e, first)
+                    mech = "output-differs-from-fresh-cli:%s:%s" % (e.replace("_same_buffer", "").replace("_memoryview", ""), first)
                     v(mech, "step %d (%s %s) output differs from a fresh CLI compilation of the same model/options" % (i, e, os.path.basename(m)), wit)
                 if e == "main" and r.get("csv_path") and b.get("csv_path"):
                     counters["csv_comparisons"] += 1
@@ -196,7 +208,7 @@ def run_case(case):
 def summarise(agg, tier):
     q = tier == "quick"
     return {
-        "thresholds": {"histories": 55 if q else 700, "history_steps": 150 if q else 2000, "twins": 8 if q else 100, "hash_seed_runs": 25 if q else 200, "entry_point_mixes": 8 if q else 100,
+        "thresholds": {"histories": 55 if q else 700, "history_steps": 150 if q else 2000, "twins": 8 if q else 100, "hash_seed_runs": 25 if q else 200, "entry_point_mixes": 12 if q else 150, "caller_buffers_compared": 15 if q else 200,
                        "byte_comparisons": 120 if q else 1800},
         "rule": "histories of 2-6 compilations in one fresh process: A;A, A;B, twins (identical LUT contents / constants / names), mixed entry points (CLI main, convert, "
                 "convert_bytes with the options those hard-wire), mixed accelerators/configurations, long random sequences, optionally with another user of the global `random` "
